@@ -8,6 +8,9 @@
 //	server  every GRPC-Timeout string of the grammar (see grammar.go) through
 //	        httpgrpc.NewServer + ServeHTTP on a recorder, unary and streaming
 //	        handler, the handler records ctx.Deadline();
+//	        the same strings once more written onto a connection to a net/http
+//	        server in front of that handler (wire.go): net/http's own reading of
+//	        the field is in the loop, the verdict goes by what it handed on;
 //	client  every remaining duration of the grammar through Channel.Invoke /
 //	        Channel.NewStream with a recording RoundTripper that captures the
 //	        GRPC-Timeout header;
@@ -42,6 +45,8 @@ package main
 
 import (
 	"context"
+	"encoding/hex"
+	"encoding/json"
 	"errors"
 	"fmt"
 	"io"
@@ -55,6 +60,7 @@ import (
 	"strings"
 	"sync"
 	"time"
+	"unicode/utf8"
 
 	"github.com/fullstorydev/grpchan/httpgrpc"
 	"google.golang.org/grpc"
@@ -287,17 +293,60 @@ type serverCase struct {
 	Handler string `json:"handler"` // unary | stream
 	Absent  bool   `json:"absent,omitempty"`
 	Header  string `json:"header"`
+	// the bytes of Header in hex, present when they are not valid UTF-8
+	HeaderHex string `json:"header_hex,omitempty"`
+	// "" = the handler is called directly with the string in the header map;
+	// "wire" = the request goes through a net/http server, byte by byte
+	Via string `json:"via,omitempty"`
 	preCase
+}
+
+// Header strings that are not valid UTF-8 do not survive encoding/json (the
+// bytes come back as U+FFFD): the replay object carries them in hex as well.
+func (c serverCase) MarshalJSON() ([]byte, error) {
+	type bare serverCase
+	b := bare(c)
+	if !utf8.ValidString(b.Header) {
+		b.HeaderHex = hex.EncodeToString([]byte(b.Header))
+	}
+	return json.Marshal(b)
+}
+
+func (c *serverCase) UnmarshalJSON(data []byte) error {
+	type bare serverCase
+	var b bare
+	if err := json.Unmarshal(data, &b); err != nil {
+		return err
+	}
+	if b.HeaderHex != "" {
+		raw, err := hex.DecodeString(b.HeaderHex)
+		if err != nil {
+			return err
+		}
+		b.Header, b.HeaderHex = string(raw), ""
+	}
+	*c = serverCase(b)
+	return nil
 }
 
 type serverObs struct {
 	hObs
-	T0, T2 time.Time // before ServeHTTP, after it returned
+	T0, T2 time.Time // before ServeHTTP (before the request is written), after it returned (after the reply was read)
 	Status int
 	Panic  string
+	Wire   wireObs // Via == "wire" only
+}
+
+// wireInfo says what net/http made of the field value of a wire case.
+type wireInfo struct {
+	Refused bool // net/http answered itself, the handler was never called
+	Altered bool // the handler was given something else than the bytes sent
 }
 
 func runServer(c serverCase) serverObs {
+	if c.Via == viaWire {
+		return runWire(c)
+	}
 	var o serverObs
 	var req *http.Request
 	if c.Handler == "stream" {
@@ -360,9 +409,44 @@ const beyondClause = "beyond-request-context"
 // reachedParser: the parse branch ran and the handler's deadline was observed;
 // rel: the measured relation of the request context's deadline to the one the
 // header asks for.
-func checkServer(c serverCase) (clause, obs string, reachedParser bool, rel string) {
+func checkServer(c serverCase) (clause, obs string, reachedParser bool, rel string, wi wireInfo) {
 	o := runServer(c)
-	f := parseRef(c.Header)
+	// what the library's handler was given: the string itself, or what net/http
+	// made of the bytes on the wire
+	header, absent := c.Header, c.Absent
+	if c.Via == viaWire {
+		w := o.Wire
+		if !w.Entered {
+			wi.Refused = true
+			if w.Status == 0 {
+				// net/http neither called the handler nor answered: not about the library
+				inconclusive("server/wire/%s/%q: net/http gave no reply and did not call the handler: %s", c.Handler, c.Header, w.ReplyErr)
+			}
+			return "", fmt.Sprintf("net/http answered %d itself, the handler was not called", w.Status), false, "", wi
+		}
+		if len(w.Seen) == 0 {
+			header, absent = "", true
+		} else {
+			header, absent = w.Seen[0], false // the library reads the first value
+		}
+		wi.Altered = absent != c.Absent || header != c.Header || len(w.Seen) > 1
+	}
+	clause, obs, reachedParser, rel = judgeServer(c, &o, header, absent)
+	if c.Via == viaWire {
+		obs = fmt.Sprintf("handler given GRPC-Timeout=%q; ", o.Wire.Seen) + obs
+		if clause == "" && o.Wire.ReplyErr != "" {
+			clause = "no-reply"
+		}
+		if o.Wire.ReplyErr != "" {
+			obs += "; " + o.Wire.ReplyErr
+		}
+	}
+	return clause, obs, reachedParser, rel, wi
+}
+
+// judgeServer: header / absent are what the library's handler was given.
+func judgeServer(c serverCase, o *serverObs, header string, absent bool) (clause, obs string, reachedParser bool, rel string) {
+	f := parseRef(header)
 	switch {
 	case o.Panic != "":
 		obs = "panic: " + o.Panic
@@ -374,7 +458,7 @@ func checkServer(c serverCase) (clause, obs string, reachedParser bool, rel stri
 		obs = fmt.Sprintf("handler reached at t0+%v, deadline=%s, http=%d", o.T.Sub(o.T0), fmtTime(o.Dl, o.T0, "t0"), o.Status)
 	}
 	obs += o.preObs(o.T0, "t0")
-	reachedParser = !c.Absent && c.Header != "" && o.Reached
+	reachedParser = !absent && header != "" && o.Reached
 	if o.Pre {
 		rel = "present"
 		if o.Phi.Before(o.T0) {
@@ -384,7 +468,7 @@ func checkServer(c serverCase) (clause, obs string, reachedParser bool, rel stri
 	if o.Panic != "" {
 		return "panic", obs, reachedParser, rel
 	}
-	if c.Absent {
+	if absent {
 		switch {
 		case !o.Reached:
 			return "handler-not-reached", obs, false, rel
@@ -524,13 +608,20 @@ func serverFingerprint(c serverCase, clause string, failed map[string]bool) stri
 	if c.Handler == "stream" {
 		side = "server-stream"
 	}
-	key := func(pre, mount string) string {
-		return fmt.Sprintf("server|%s|%v|%s|%s|%s", c.Handler, c.Absent, c.Header, pre, mount)
+	keyVia := func(via, pre, mount string) string {
+		return fmt.Sprintf("server|%s|%s|%v|%s|%s|%s", via, c.Handler, c.Absent, c.Header, pre, mount)
 	}
+	key := func(pre, mount string) string { return keyVia(c.Via, pre, mount) }
 	if failed != nil {
 		failed[key(c.Pre, c.Mount)+"|"+clause] = true
 	}
 	pt := preTag(c.preCase, rel, clause, key, failed)
+	// that the request went through net/http is part of a finding's identity
+	// only if the same case with the handler called directly (which ran earlier)
+	// did not break the same clause
+	if c.Via != "" && (failed == nil || !failed[keyVia("", c.Pre, c.Mount)+"|"+clause]) {
+		pt += "|via=" + c.Via
+	}
 	if c.Absent {
 		return fmt.Sprintf("C09|%s|GRPC-Timeout=<absent>%s|%s", side, pt, clause)
 	}
@@ -551,7 +642,11 @@ func serverFingerprint(c serverCase, clause string, failed map[string]bool) stri
 		return fmt.Sprintf("C09|%s|GRPC-Timeout=%d-digit%c|fits%s|%s", side, f.Digits, f.Unit, pt, clause)
 	}
 	h := c.Header
-	if !plain(h) {
+	if cl, ok := byteClass[h]; ok && !f.Valid {
+		// a string of the byte alphabet part that is not a timeout: named by the
+		// kind of byte and where it stands, not by the byte
+		h = "<" + cl + ">"
+	} else if !plain(h) {
 		h = fmt.Sprintf("%q", h)
 	}
 	return fmt.Sprintf("C09|%s|GRPC-Timeout=%s%s|%s", side, h, pt, clause)
@@ -1011,7 +1106,7 @@ func main() {
 		case "server":
 			var c serverCase
 			common.LoadReplay(p, &c)
-			clause, obs, _, _ = checkServer(c)
+			clause, obs, _, _, _ = checkServer(c)
 		case "client":
 			var c clientCase
 			common.LoadReplay(p, &c)
@@ -1038,7 +1133,9 @@ func main() {
 	sample := func(c interface{}, obs string) {
 		samples = append(samples, map[string]interface{}{"case": c, "observed": obs})
 	}
-	wantSample := map[string]bool{"<absent>": true, "100m": true, "1S": true, "99999999H": true, "2562047H": true, "9223372036854775807n": true, "-1S": true, "5": true}
+	wantSample := map[string]bool{"<absent>": true, "100m": true, "1S": true, "99999999H": true, "2562047H": true, "9223372036854775807n": true, "-1S": true, "5": true,
+		"5\xb5": true, "100\xff": true, "5\x00": true, "5\u00b5": true, "1\uff150S": true, "\x800S": true}
+	wantWireSample := map[string]bool{"100m": true, "5\xb5": true, "100\xff": true, "5\x00": true, "5S ": true, "5S\n": true, "1\xb50S": true}
 
 	// ---- server clause
 	headers := serverGrammar(thorough)
@@ -1057,7 +1154,7 @@ func main() {
 		for _, kind := range []string{"unary", "stream"} {
 			c := serverCase{Engine: "E2", Kind: "server", Handler: kind, Absent: true, preCase: pre}
 			evals++
-			clause, obs, _, _ := checkServer(c)
+			clause, obs, _, _, _ := checkServer(c)
 			if kind == "unary" && (pre.Pre == "" || pre.Pre == "1h") {
 				sample(c, obs)
 			}
@@ -1069,7 +1166,7 @@ func main() {
 			for _, kind := range []string{"unary", "stream"} {
 				c := serverCase{Engine: "E2", Kind: "server", Handler: kind, Header: h, preCase: pre}
 				evals++
-				clause, obs, reached, rel := checkServer(c)
+				clause, obs, reached, rel, _ := checkServer(c)
 				if reached {
 					distinct["server|"+kind+"|"+h+"|"+pre.label()] = true
 					if rel != "" && parseRef(h).Valid {
@@ -1081,6 +1178,57 @@ func main() {
 				}
 				if clause != "" {
 					rep.Violation(serverFingerprint(c, clause, failed), fmt.Sprintf("GRPC-Timeout=%q (%s handler)%s: %s: %s", h, kind, preName(pre), clause, obs), c)
+				}
+			}
+		}
+	}
+
+	// ---- server clause once more, over the wire: every string of the grammar
+	// through a net/http server; the strings with the swept byte in the unit
+	// position crossed with every request context deadline, the others without
+	calibrateWire()
+	wireCount := map[string]int{}
+	wireStrings := map[string]bool{}
+	for _, pre := range serverPres {
+		for _, kind := range []string{"unary", "stream"} {
+			c := serverCase{Engine: "E2", Kind: "server", Handler: kind, Absent: true, Via: viaWire, preCase: pre}
+			evals++
+			clause, obs, _, _, _ := checkServer(c)
+			if kind == "unary" && pre.Pre == "" {
+				sample(c, obs)
+			}
+			if clause != "" {
+				rep.Violation(serverFingerprint(c, clause, failed), fmt.Sprintf("GRPC-Timeout absent (%s handler, over the wire)%s: %s: %s", kind, preName(pre), clause, obs), c)
+			}
+		}
+		for _, h := range headers {
+			if pre.Pre != "" && !unitPosition[h] {
+				continue
+			}
+			for _, kind := range []string{"unary", "stream"} {
+				c := serverCase{Engine: "E2", Kind: "server", Handler: kind, Header: h, Via: viaWire, preCase: pre}
+				evals++
+				clause, obs, reached, rel, wi := checkServer(c)
+				switch {
+				case wi.Refused:
+					wireCount["refused_by_net_http"]++
+				case wi.Altered:
+					wireCount["altered_by_net_http"]++
+				default:
+					wireCount["passed_on_unchanged"]++
+				}
+				if reached {
+					distinct["server|wire|"+kind+"|"+h+"|"+pre.label()] = true
+					wireStrings[h] = true
+					if rel != "" && parseRef(h).Valid {
+						relCount["server|"+rel]++
+					}
+				}
+				if kind == "unary" && pre.Pre == "" && wantWireSample[h] {
+					sample(c, obs)
+				}
+				if clause != "" {
+					rep.Violation(serverFingerprint(c, clause, failed), fmt.Sprintf("GRPC-Timeout=%q (%s handler, over the wire)%s: %s: %s", h, kind, preName(pre), clause, obs), c)
 				}
 			}
 		}
@@ -1206,8 +1354,8 @@ func main() {
 	os.Exit(rep.Finish("exploration", map[string]interface{}{
 		"evaluations":         evals,
 		"distinct_nontrivial": len(distinct),
-		"rule": "server: every string of the grammar (" + grammarText(thorough) + ") as the GRPC-Timeout value, plus the header absent, x {unary, streaming} handler through httpgrpc.Server.ServeHTTP on a recorder; " +
-			"non-trivial = header present and non-empty (the parse branch of contextFromHeaders runs) and the handler was reached so that ctx.Deadline() was observed; distinct by (handler kind, string). " +
+		"rule": "server: every string of the grammar (" + grammarText(thorough) + ") as the GRPC-Timeout value, plus the header absent, x {unary, streaming} handler x the deadline on the request context, (direct) through httpgrpc.Server.ServeHTTP on a recorder with the string placed in the header map as it is, and (wire) written byte by byte as the field value of a request to a net/http server (in-memory connection) in front of the same handler, the reply parsed with http.ReadResponse: every string without a request context deadline, and the strings with the swept byte in the unit position crossed with every request context deadline; over the wire the oracle judges by the value net/http handed to the handler (wire_* count what net/http did with the bytes: refused = answered 400 itself without calling the handler, altered = trimmed or split, passed on unchanged), and a reply that cannot be read is a finding as soon as the handler was called; " +
+			"non-trivial = the handler was given a non-empty value (the parse branch of contextFromHeaders runs) and was reached so that ctx.Deadline() was observed; distinct by (direct / wire, handler kind, string, request context). " +
 			"client / e2e: every remaining duration of the grammar (" + remainingText(thorough) + ") plus no deadline x {Invoke, NewStream} through a recording RoundTripper, and through HandlerRT(server), " +
 			"crossed with per-RPC " + credsText(thorough) + " and " + mdText() + ": the full cross product for credentials {none, at once} x metadata; credentials that take time (each case costs its delay on the clock) x metadata {none, " + mdGrammarSlow[1].label() + ", " + mdGrammarSlow[2].label() + "}, swept over every duration; " +
 			"end to end each of these is crossed with the deadline on the server's request context: the full cross product (every value, both ways of putting it there) for credentials {none, at once} x metadata x duration; the plain context deadlines for credentials taking 3 ms without metadata x duration; none for the other slow credentials; " +
@@ -1216,6 +1364,11 @@ func main() {
 			"slow_credentials_measured counts the non-trivial cases in which GetRequestMetadata was entered and left with at least the delay between the two recorded instants; grpc_timeout_metadata_with/without_deadline count the non-trivial cases with such an entry.",
 		"server_strings":                                        len(headers),
 		"server_strings_valid":                                  nValid,
+		"byte_alphabet_tokens":                                  len(positionTokens()),
+		"byte_alphabet_strings_new":                             len(byteClass),
+		"byte_alphabet_unit_position_strings":                   len(unitPosition),
+		"wire_cases":                                            wireCount,
+		"wire_strings_reaching_the_parser":                      len(wireStrings),
 		"remaining_durations":                                   len(rems),
 		"credentials_metadata_combinations":                     len(combos),
 		"request_context_deadlines":                             len(serverPres),
@@ -1229,7 +1382,8 @@ func main() {
 		"samples":                                               samples,
 		"exhaustive":                                            true,
 	}, []string{
-		"server side on httptest.ResponseRecorder, client side on a synthetic RoundTripper: net/http's own header handling (trimming of optional white space, rejection of control characters) is not in the loop, the parser sees the raw string",
+		"server side, direct: on httptest.ResponseRecorder with the string put into the header map as it is, so the parser sees every string of the grammar raw, including those net/http would refuse or trim; server side, wire: net/http's server reads the field (trimming of optional white space, refusal of control bytes, line feeds ending the field) over an in-memory connection (net.Pipe behind a net.Listener, HTTP/1.1, one request per connection, no body), no socket and no TLS; client side on a synthetic RoundTripper",
+		"the byte alphabet (every octet 0x00..0xFF and five multi-byte UTF-8 sequences) is swept through one position at a time of otherwise well-formed strings: the unit position after 12 digit strings, each digit of 1-3 digit values x 7 suffixes, and digits of three over-long values (quick: first / middle / last digit, unit S; thorough: every digit, suffixes S n x); two odd bytes at once are only met in the older hand-written strings. These strings are crossed with handler kind and every request context deadline when the handler is called directly; findings on strings of this part that are not timeouts are named by the class of the byte (NUL, HT, LF, CR, other control, SP, digit, upper, lower, punctuation, DEL, 0x80-0xBF, 0xC0-0xF7, 0xF8-0xFF, or the UTF-8 sequence) and its position, not by the byte",
 		"end to end, the request is detached from the caller's context before it reaches the server (as over a real connection), so the handler's deadline comes from the GRPC-Timeout header and from the deadline the case puts on the server's request context alone",
 		"the request context's own deadline is an absolute distance from the instant the request context is made (1 s ago, 50 ms, 1 h, 200 y), not a function of the caller's deadline: it is earlier than the caller's for the longer and later for the shorter members of the header / duration grammars, which the measured relation counts show; a value within microseconds of the caller's is only met by accident (counted as straddling)",
 		"with a deadline on the request context the handler's deadline must still not be later than the caller's plus transit plus 1 ms, must not be later than the request context's (context deadlines only shrink; with http.TimeoutHandler that deadline is known only to lie between the instants before TimeoutHandler and at the entry of the wrapped handler, each plus the limit), and must not be earlier than the earlier of the two less the granularity; with no caller deadline it must be the request context's",
